@@ -26,12 +26,12 @@ EDITS = [
 ]
 
 EXPRS = [
-    "all", "protein", "water", "backbone", "sidechain", "not protein and not water",
-    "name CA", "name O", "name H1 H2", "name M M0 CX", "type O", "element H", "symbol VS", "mass > 13", "mass < 0.5",
-    "index < 33", "index 0", "index 33 34 35", "index > 30 and mass > 13",
-    "n_bonds 2 and water", "n_bonds 0", "n_bonds 1", "n_bonds > 2", "water and name O and n_bonds 2",
-    "resid 6", "resid 7 to 13", "residue 101", "resSeq 1 6", "resname HOH", "resname ALA LIG SER", "rescode A", "code G S",
-    "chainid 2", "chainid 0 4", "segment_id SOLV", "segname SA SC",
+    "protein", "water", "backbone", "sidechain",
+    "name CA", "name H1 H2", "name M M0 CX", "element H", "symbol VS", "type O and mass > 13", "mass < 0.5",
+    "index < 33", "index 33 34 35",
+    "n_bonds 2 and water", "n_bonds 0", "n_bonds > 2", "water and name O and n_bonds 2",
+    "resid 6", "resi 7 to 13", "residue 101", "resSeq 1 6", "resname HOH", "resn ALA LIG SER", "rescode A", "code G S",
+    "chainid 2", "segment_id SOLV", "segname SA SC",
 ]
 
 
